@@ -66,10 +66,14 @@ def execute(st, ctx):
         return getattr(exc, "tag", type(exc).__name__)
 
     if sc.kind == 0:
+        received = []
+
+        # positional-only, *args, keyword-only and **opts at once: every re-created context must get the same arguments
         @L.contextmanager
-        async def manager(label):
+        async def manager(label, /, *rest, mode="x", **opts):
             counter[0] += 1
             k = counter[0]
+            received.append((label, rest, mode, tuple(sorted(opts.items()))))
             log.append(("enter", k, sim.current.id))
             await pause(sc.susp[0], "enter")
             log.append(("entered", k, sim.current.id))
@@ -86,7 +90,8 @@ def execute(st, ctx):
                 log.append(("exit", k, sim.current.id, None, None))
                 await pause(sc.susp[2], "exit")
 
-        decorator = manager("ctx")
+        decorator = manager("ctx", 1, 2, mode="y", retries=3, func=4)
+        expect_args = ("ctx", (1, 2), "y", (("func", 4), ("retries", 3)))
     else:
         class Manager(L.ContextDecorator):
             async def __aenter__(self):
@@ -150,6 +155,9 @@ def execute(st, ctx):
         for t in tasks:
             if t.error is not None and t.error is not t.cancelled_with:
                 out.violate("C15.task_failed", sig + (type(t.error).__name__,), dict(describe(), error=repr(t.error)))
+        if sc.kind == 0 and any(r != expect_args for r in received):
+            out.violate("C15.recreated_manager_got_other_arguments", sig,
+                        dict(describe(), received=[repr(r) for r in received], expected=repr(expect_args)))
         used = {}
         for ti, task in enumerate(tasks):
             events = [e for e in log if e[2] == task.id]
